@@ -7,8 +7,8 @@ import tables
 CONFIGS = ['cli']
 LEVEL = 'other'
 EXPLANATION = (
-    'Decides the ordering clause as dominance facts (independent of any kill point): (R1) copy_atomic writes only to dst+".copia-tmp", '
-    'flushes the staged file to stable storage and renames only under the Ok edges of copy and sync; (R2) in the bisync call graph file '
+    'Decides the ordering clause as dominance facts (independent of any kill point): (R1) every call in copy_atomic that creates file content writes dst+".copia-tmp" (never the live path; staging names built by crate-local helpers are evaluated from their body), '
+    'the staged file is flushed and renamed onto dst only under the Ok edges of copy and sync, and after a write no Ok return skips the rename; (R2) in the bisync call graph file '
     'content is created / renamed only by copy_atomic and Archive::save; (R3) Archive::save has one call site, reachable only through the '
     'exhaustion edge of the apply loop and never from an apply Err edge, and not under --dry-run; (R4) save = create(tmp) -> write_all Ok -> '
     'sync_all Ok -> [.bak rename] -> rename(tmp, path) -> parent-dir sync; (R5) nothing else uses the archive path. '
@@ -56,8 +56,8 @@ def r1(ctx, F):
     dst_i = param_index(b, 'dst') or 2
     creators = fl.calls(lambda c: c in tables.CONTENT_CREATORS and not c.endswith('OpenOptions::open'))
     renames = fl.calls(lambda c: c in RENAMES)
-    is_tmp = lambda op: tmp_of_param(fl, fl.origins(op, mut_calls=True), dst_i, '.copia-tmp')
-    is_dst = lambda op: (lambda os_: bool(os_) and all(o.kind == 'param' and o.key == dst_i for o in os_))(fl.origins(op, mut_calls=True))
+    is_tmp = lambda op: is_param_plus_suffix(F, fl, op, dst_i, '.copia-tmp')
+    is_dst = lambda op: is_plain_param(F, fl, op, dst_i)
     # (a) every call that creates file content in copy_atomic writes the staging name, never the live path
     staged_copies = []
     for cb, ct in creators:
@@ -89,8 +89,8 @@ def r1(ctx, F):
         for sb, st in fl.calls(lambda c: c in SYNC):
             for o in fl.origins(st['args'][0]):
                 if o.kind == 'call' and (o.key in tables.FS_READERS or o.key in tables.CONTENT_CREATORS):
-                    po = call_arg_origins(fl, o.bb, tables.FS_READERS.get(o.key, tables.CONTENT_CREATORS.get(o.key, 0)), mut_calls=True)
-                    if tmp_of_param(fl, po, dst_i, '.copia-tmp') and fl.guarded_by(rb, sb, 'Ok') and any(cfg.dominates(cb, sb) for cb in staged_copies):
+                    pop = fl.body.blocks[o.bb]['term']['args'][tables.FS_READERS.get(o.key, tables.CONTENT_CREATORS.get(o.key, 0))]
+                    if is_tmp(pop) and fl.guarded_by(rb, sb, 'Ok') and any(cfg.dominates(cb, sb) for cb in staged_copies):
                         synced = True
         ctx.check(synced, 'C08.R1', 'copy_atomic:fsync-before-rename', 'staged file flushed (sync_all Ok) between copy and rename',
                   'copy_atomic renames the staged file without fsync: the archive (which is fsynced) can become durable before the data it describes',
@@ -168,13 +168,13 @@ def r4(ctx, F):
     writes = fl.calls(lambda c: c in ('std::io::Write::write_all',))
     syncs = fl.calls(lambda c: c in SYNC)
     renames = fl.calls(lambda c: c in RENAMES)
-    pub = [(rb, rt) for rb, rt in renames if all(o.kind == 'param' and o.key == path_i for o in fl.origins(rt['args'][1], mut_calls=True))]
+    pub = [(rb, rt) for rb, rt in renames if is_plain_param(F, fl, rt['args'][1], path_i)]
     bak = [(rb, rt) for rb, rt in renames if (rb, rt) not in pub]
     if len(pub) != 1 or not creates or not writes or not syncs:
         ctx.missing('C08.R4', 'Archive::save: create/write_all/sync_all/publishing rename (found %d/%d/%d/%d)' % (len(creates), len(writes), len(syncs), len(pub)))
     pb, pt = pub[0]
-    staged = tmp_of_param(fl, fl.origins(pt['args'][0], mut_calls=True), path_i, '.tmp') and \
-        all(tmp_of_param(fl, fl.origins(ct['args'][0], mut_calls=True), path_i, '.tmp') for cb, ct in creates)
+    staged = is_param_plus_suffix(F, fl, pt['args'][0], path_i, '.tmp') and \
+        all(is_param_plus_suffix(F, fl, ct['args'][0], path_i, '.tmp') for cb, ct in creates)
     ctx.check(staged, 'C08.R4', 'save:staging-name', 'File::create(path+".tmp"); rename(path+".tmp", path)',
               'Archive::save does not write a path+".tmp" staging file and rename it into place (archive written in place?)', term_loc(b, pb))
     # handle identity: write_all and sync_all on the created file
